@@ -23,8 +23,8 @@ P={
   "The same generated logical history is executed with generated physical placements/options and as an all-in-memory twin; all answers must equal the model and each other.",
   "Trusted: model + interpreter; bounded histories."),
 "C07":("exploration","model","stateful PBT over layouts followed by reopen, probe commit, reopen",
-  "Generated workloads drive the store into many level shapes; every reopen must succeed, reproduce the model state, and a probe commit after recovery must stay visible across a further reopen. A sub-stream lets memtables fill until apply rotates implicitly (known finding F03 lives there and is classified).",
-  "Trusted: model + interpreter; clean close only (crash images are C02/C03's job); bounded histories."),
+  "Generated workloads drive the store into many level shapes; every reopen must succeed, reproduce the model state, and a probe commit after recovery must stay visible across a further reopen. A sub-stream lets memtables fill until apply rotates implicitly (where F03, now fixed, lived). A crash stream (process-crash and power-loss images, also with 4 / 8 KiB memtables so that recovery has to split a segment, second generation) demands that every image opens, takes a probe commit and opens again with the same contents.",
+  "Trusted: model + interpreter; bounded histories; crash images as for C02/C03."),
 "C08":("exploration","model","stateful PBT of transaction programs against a stack-of-maps write-set model",
   "Generated transaction programs (all modes, savepoints, rollbacks, operations after close, empty keys) are compared call by call with a write-set model laid over the snapshot model; rejected operations must fail with a documented error.",
   "Trusted: model; history over pending writes and get_at with pending writes are not judged."),
@@ -80,5 +80,12 @@ kinds={"model":("harness/src/exec.rs","proptest-generated (configuration, key po
 "sched":("harness/src/engine_sched.rs","token-passing scheduler over guarded yield points"),
 "lock":("harness/src/engine_lock.rs","single-owner model over in-process and cross-process openers")}
 m['engines']=[{"name":k,"path":kinds[k][0],"serves_properties":v,"kind_free_text":kinds[k][1]} for k,v in engines.items()]
+try:
+    import subprocess
+    hc=subprocess.run(['git','-C','/repo','log','--reverse','--format=%h %s'],capture_output=True,text=True).stdout.splitlines()
+    hc=[l.split()[0] for l in hc if ' verif hooks' in ' '+l.split(' ',1)[1] or l.split(' ',1)[1].startswith('verif hooks')]
+    if hc: m['hooks']['source_commits']=hc
+except Exception as e:
+    print('hooks commits not refreshed:',e)
 json.dump(m,open(os.path.join(ROOT,'MANIFEST.json'),'w'),indent=1)
 print("checks:",[c['property_id'] for c in checks]," n/a:",len(na))
